@@ -19,12 +19,14 @@ structure TablesOK (T : Tables) : Prop where
   nameButton : T.autoTag sName sButton = true
   valueButton : T.autoTag sValue sButton = true
   nameSelect : T.autoTag sName sSelect = true
+  valueSelect : T.autoTag sValue sSelect = false
   nameOption : T.autoTag sName sOption = false
   valueOption : T.autoTag sValue sOption = true
   textChain : Flatland.C11.Proofs.TextChainOK T.textChain = true
 
 theorem tablesOK_current : TablesOK Tables.current :=
-  ⟨by decide, by decide, by decide, by decide, by decide, by decide, by decide, by decide, by decide, by decide⟩
+  ⟨by decide, by decide, by decide, by decide, by decide, by decide, by decide, by decide, by decide, by decide,
+   by decide⟩
 
 /-- name and value generation are switched on in the context (true of `Generator()`: `fresh_enabled`) -/
 structure Live (T : Tables) (ctx : Ctx) : Prop where
